@@ -8,6 +8,7 @@ injected at EVERY row index (header, each data row, exhaustion) and as a
 malformed row at every data row, each on a fresh database.  Oracle: a list
 model of the committed table contents read through a fresh connection."""
 import gc
+import itertools
 import os
 import sqlite3
 
@@ -381,6 +382,18 @@ def _one(e, case, path, op, handle, commit, fault, log):
                         raise _Bad('fromdb-differs', '%s: second pass of '
                                    'fromdb returns %r, first %r'
                                    % (what, again, got))
+                    # and so do two passes that overlap (the view is read
+                    # while another iterator over it is part-way)
+                    it1 = iter(view)
+                    a = [tuple(r) for r in itertools.islice(it1, 2)]
+                    b = [tuple(r) for r in iter(view)]
+                    a += [tuple(r) for r in it1]
+                    del it1
+                    for x in (a, b):
+                        if canon_rows(x) != canon_rows(got):
+                            raise _Bad('fromdb-differs', '%s: overlapping '
+                                       'passes of fromdb return %r and %r, '
+                                       'a single pass %r' % (what, a, b, got))
                 del view, rh
             finally:
                 rd.close()
